@@ -149,7 +149,7 @@ inline bool ref_aead_decrypt(const Oct &ct, const Oct &key, int skalgo, int aead
 
 inline bool enc_judged(const std::string &reg) {
 	static const std::set<std::string> j = {"seipd.prefix", "seipd.data", "seipd.mdc", "seipd.body", "aead.ad", "aead.iv", "aead.ct", "aead.tag", "aead.final_tag",
-		"pkesk.mpi_val", "pkesk.wrapped", "pkesk.wraplen", "skesk.skalgo", "skesk.aead", "skesk.s2k", "skesk.salt", "skesk.count", "skesk.iv", "skesk.esk", "skesk.tag"};
+		"pkesk.mpi_val", "pkesk.x25519_last_octet", "pkesk.wrapped", "pkesk.wraplen", "skesk.skalgo", "skesk.aead", "skesk.s2k", "skesk.salt", "skesk.count", "skesk.iv", "skesk.esk", "skesk.tag"};
 	return j.count(reg) > 0;
 }
 
@@ -240,7 +240,8 @@ inline void run_enc(long &kc) {
 			else { st.reached = true; count("positive/" + kind); }
 			// the decrypted literal packet parses back to the data
 			if (same && c.lit) { TMCG_OpenPGP_Message *m2 = nullptr; bool ok = accepted([&] { return PGP::MessageParse(p.plain, 0, m2); }); st.evals++;
-				if (!ok || !m2 || m2->literal_data != data) viol("C20/positive/" + kind + "-literal", "decrypted packet sequence does not parse back to the original data", cj); else count("positive/" + kind + "-literal");
+				if (data.empty() && !ok) count("observed/empty-literal-packet-refused-by-parser");      // PacketDecodeTag11 refuses "no data" by design: an encoding matter (C19), the decrypted octets were equal
+				else if (!ok || !m2 || m2->literal_data != data) viol("C20/positive/" + kind + "-literal", "decrypted packet sequence does not parse back to the original data", cj); else count("positive/" + kind + "-literal");
 				delete m2; }
 		}
 		if (st.reached && kind != "sed") {
